@@ -22,7 +22,7 @@ EXHAUSTIVE = True
 
 
 def _key(ev):
-    return "C06 trace %s %s%s%s%s" % (ev.get("family"), ev.get("design"), " weights" if ev.get("weights") else "", " offset" if ev.get("offset") else "", " ridge" if ev.get("alpha_class") else "") + (" large-mean" if ev.get("scale") == "large-mean" else "") + (" " + ev.get("history") if ev.get("history") not in (None, "fresh") else "")
+    return "C06 trace %s %s%s%s%s" % (ev.get("family"), ev.get("design"), " weights" if ev.get("weights") else "", " offset" if ev.get("offset") else "", " ridge" if ev.get("alpha_class") else "") + (" " + ev.get("scale") if ev.get("scale") not in (None, "unit") else "") + (" " + ev.get("history") if ev.get("history") not in (None, "fresh") else "")
 
 
 def run(R):
